@@ -36,6 +36,18 @@ def cases(tier, seed):
             if tier == "quick" and rnd.random() < 0.0:
                 continue
             yield {"kind": "svgp", "strategy": strat, "dist": dist, "zbatch": zb, "pbatch": pb, "dbatch": db, "seed": rnd.randrange(10**6)}
+        # coinciding sizes: one inducing point, one input, as many inducing points as inputs, all sizes equal to the batch size
+        for strat, dist, mn, bb in itertools.product(["VariationalStrategy", "UnwhitenedVariationalStrategy"], DISTS, [[1, 6], [4, 1], [4, 4], [2, 2], [1, 1], [6, 4]], [[], [2]]):
+            if tier == "quick" and rnd.random() < 0.65:
+                continue
+            yield {"kind": "svgp", "strategy": strat, "dist": dist, "zbatch": bb, "pbatch": bb, "dbatch": bb, "mn": mn, "seed": rnd.randrange(10**6)}
+        for kind_, mn in itertools.product(["identity", "same_qu", "bdvs"], [[1, 6], [4, 4], [2, 2]]):
+            if kind_ == "identity":
+                yield {"kind": "identity", "strategy": rnd.choice(["VariationalStrategy", "UnwhitenedVariationalStrategy"]), "dist": rnd.choice(DISTS[:2] + DISTS[3:]), "mn": mn, "seed": rnd.randrange(10**6)}
+            elif kind_ == "same_qu":
+                yield {"kind": "same_qu", "dist": rnd.choice(DISTS[:2]), "mn": mn, "seed": rnd.randrange(10**6)}
+            else:
+                yield {"kind": "bdvs", "dist": rnd.choice(DISTS[:2]), "mean_var_batch_dim": -1, "mn": mn, "seed": rnd.randrange(10**6)}
         for dist in DISTS[:3]:
             yield {"kind": "svgp", "strategy": "CiqVariationalStrategy", "dist": "NaturalVariationalDistribution" if dist == DISTS[0] else dist, "zbatch": [], "pbatch": [], "dbatch": [], "seed": rnd.randrange(10**6)}
         for dist, dim in itertools.product(DISTS[:2], [-1]):
@@ -215,7 +227,16 @@ def _reduce_to(ref, shape):
 def run_case(case, ctx):
     from vf import util
 
+    global M_, N_
     g = util.gen(case["seed"])
+    M_, N_ = case.get("mn", [4, 6])
+    try:
+        return _dispatch(case, ctx, g)
+    finally:
+        M_, N_ = 4, 6
+
+
+def _dispatch(case, ctx, g):
     return {"svgp": _svgp, "bdvs": _bdvs, "grid": _grid, "lmc": _multitask, "indep": _multitask, "identity": _identity, "same_qu": _same_qu, "orth": _orth}[case["kind"]](case, ctx, g)
 
 
